@@ -252,3 +252,25 @@ func TestWitnessSDPMonoWithoutChannels(t *testing.T) {
 			"rtpmap MPEG4-GENERIC/44100 with config=1208: %s", d)
 	}
 }
+
+// W9: a media description whose transport is not RTP/AVP ("m=video 0 udp 96")
+// is parsed by go-sdp without any format entry; ParseMetadata indexed
+// Format[0] and the panic escaped through media.NewStream.
+func TestWitnessSDPMediaWithoutFormat(t *testing.T) {
+	for _, m := range []string{"m=video 0 udp 96\r\n", "m=audio 0 TCP 97\r\n"} {
+		sdp := sdpHead + m
+		evid.Eval(1)
+		func() {
+			defer func() {
+				if r := recover(); r != nil {
+					evid.Violation(t, "witness-sdp-no-format", map[string]string{"sdp": sdp}, "media.NewStream panicked on %q: %v", m, r)
+				}
+			}()
+			s := media.NewStream(nextPath(), sdp)
+			if s == nil {
+				evid.Violation(t, "witness-sdp-no-format", map[string]string{"sdp": sdp}, "NewStream returned nil")
+			}
+			s.Close()
+		}()
+	}
+}
